@@ -328,3 +328,92 @@ Proof.
     + apply fg_keys_filter.
     + exact Hempty.
 Qed.
+
+(** ---------------------------------------------------------------- the converse: putting the virtual node back *)
+Lemma map_res_unfilter {A B} (F : A -> res B) (p : A -> bool) : forall l ys, GraphOps.map_res F (filter p l) = Ok ys ->
+  (forall x, In x l -> p x = false -> exists y, F x = Ok y) -> exists zs, GraphOps.map_res F l = Ok zs.
+Proof.
+  induction l as [|x r IH]; intros ys H Hx; [eexists; reflexivity|]. cbn [filter] in H. cbn [GraphOps.map_res].
+  destruct (p x) eqn:Ep.
+  - cbn [GraphOps.map_res] in H. destruct (F x) as [y|]; cbn [bind] in *; [|discriminate H].
+    destruct (GraphOps.map_res F (filter p r)) as [ys'|] eqn:Er; cbn [bind] in H; [|discriminate H].
+    destruct (IH ys' eq_refl) as [zs Ez]; [intros; apply Hx; [now right|assumption]|]. rewrite Ez. cbn [bind]. eexists. reflexivity.
+  - destruct (Hx x (or_introl eq_refl) Ep) as [y Ey]. rewrite Ey. cbn [bind].
+    destruct (IH ys H) as [zs Ez]; [intros; apply Hx; [now right|assumption]|]. rewrite Ez. cbn [bind]. eexists. reflexivity.
+Qed.
+Lemma annotate_insert kv meta mol fgsR : annotate_fragments (remove_node meta kv) mol = Ok fgsR -> (forall n, ~ records mol n kv) ->
+  exists fgs, annotate_fragments meta mol = Ok fgs.
+Proof.
+  intros H Hnr. assert (forall fm, fragid_map mol = Ok fm -> members_of fm kv = []) as Hm.
+  { intros fm Ef. destruct (members_of fm kv) as [|n r] eqn:E; [reflexivity|]. exfalso. apply (Hnr n).
+    assert (In n (members_of fm kv)) as Hin by (rewrite E; now left). apply members_spec in Hin as [l [Hl Hk]].
+    unfold fragid_map in Ef. destruct (map_res_in _ _ _ _ Ef Hl) as [[n' v] [Hv Hx]]. cbn [fst snd] in Hx.
+    destruct (as_list v) as [l'|] eqn:El; cbn [bind] in Hx; [|discriminate Hx]. apply ok_some in Hx. injection Hx as -> ->.
+    exists v, l. auto. }
+  revert H. unfold annotate_fragments. destruct (fragid_map mol) as [fm|]; cbn [bind]; [|discriminate]. intros H.
+  rewrite remove_node_eq, map_res_map_ext in H by reflexivity.
+  apply (map_res_unfilter _ _ _ _ H). intros x _ Hx. unfold keep in Hx. apply negb_false_iff, Z.eqb_eq in Hx. rewrite Hx, (Hm fm eq_refl).
+  eexists. reflexivity.
+Qed.
+
+(** the step on the coarse graph WITH the virtual node returns whenever the step on the graph without it does *)
+Theorem step_insert_virtual legacy aa fd prev car fo kv : wf_dict fd -> wf_attrs fd -> NoDup (node_keys prev) ->
+  get_node_attributes prev (S "atomname") = [] -> vnode fd kv prev ->
+  resolve_step_full legacy aa fd (remove_node prev kv) car = Ok fo ->
+  exists fo', resolve_step_full legacy aa fd prev car = Ok fo'.
+Proof.
+  intros Hw Hwa Hn Hat V H.
+  destruct (step_tail _ _ _ _ _ _ Hw Hwa H) as [I6 _].
+  assert (fo_meta fo = remove_node prev kv) as Hmeta.
+  { revert H. unfold resolve_step_full. rewrite (gna_remove kv prev _ Hat).
+    change (set_nodes_from (remove_node prev kv) (S "fragname") []) with (remove_node prev kv).
+    destruct (resolve_disconnected fd (remove_node prev kv)) as [[m1 fg1]|]; cbn [bind]; [|discriminate].
+    destruct (bonding_step legacy aa (remove_node prev kv) m1 fg1) as [[m2 fg2]|]; cbn [bind]; [|discriminate].
+    destruct (Squash.squash_atoms m2) as [m3|]; cbn [bind]; [|discriminate].
+    destruct (if aa then Hydrogens.rebuild_h_atoms_default m3 car else Ok m3) as [m4|]; cbn [bind]; [|discriminate].
+    destruct (sort_nodes_by_attr m4) as [m5|]; cbn [bind]; [|discriminate].
+    destruct (if aa then EzImpl.annotate_ez_isomers_cgsmiles m5 else Ok m5) as [m6|]; cbn [bind]; [|discriminate].
+    destruct (annotate_fragments (remove_node prev kv) m6) as [f6|]; cbn [bind]; [|discriminate].
+    destruct (if aa then set_atom_names m6 (remove_node prev kv) f6 else Ok (m6, f6)) as [[m7 f7]|]; cbn [bind]; [|discriminate].
+    intros H. apply ok_some in H. now subst fo. }
+  assert (forall n, ~ records (fo_m6 fo) n kv) as Hnr.
+  { intros n Hr. pose proof (records_good _ _ n kv I6 Hr) as Hin. rewrite Hmeta in Hin. apply in_flat_map in Hin as [mn [Hmn Hk]].
+    rewrite remove_node_eq in Hmn. apply in_map_iff in Hmn as [m0 [<- Hm0]]. apply filter_In in Hm0 as [_ Hkeep].
+    unfold real_of in Hk. change (na (adjdel kv m0)) with (na m0) in Hk. change (nk (adjdel kv m0)) with (nk m0) in Hk.
+    destruct (aget (S "fragname") (na m0)); [|contradiction]. destruct (lookup_fragment fd p); [|contradiction].
+    destruct Hk as [Hk|[]]. unfold keep in Hkeep. rewrite Hk, Z.eqb_refl in Hkeep. discriminate Hkeep. }
+  revert H Hnr. unfold resolve_step_full. rewrite Hat, (gna_remove kv prev _ Hat).
+  change (set_nodes_from prev (S "fragname") []) with prev. change (set_nodes_from (remove_node prev kv) (S "fragname") []) with (remove_node prev kv).
+  rewrite (disconnected_remove fd kv prev V).
+  destruct (resolve_disconnected fd prev) as [[m1 fg1]|]; cbn [bind]; [|discriminate].
+  rewrite (bonding_remove legacy aa fd kv prev m1 fg1 Hn V).
+  destruct (bonding_step legacy aa prev m1 fg1) as [[m2 fg2]|]; cbn [bind]; [|discriminate].
+  destruct (Squash.squash_atoms m2) as [m3|]; cbn [bind]; [|discriminate].
+  destruct (if aa then Hydrogens.rebuild_h_atoms_default m3 car else Ok m3) as [m4|]; cbn [bind]; [|discriminate].
+  destruct (sort_nodes_by_attr m4) as [m5|]; cbn [bind]; [|discriminate].
+  destruct (if aa then EzImpl.annotate_ez_isomers_cgsmiles m5 else Ok m5) as [m6|]; cbn [bind]; [|discriminate].
+  destruct (annotate_fragments (remove_node prev kv) m6) as [fgsR|] eqn:E7; cbn [bind]; [|discriminate].
+  destruct (if aa then set_atom_names m6 (remove_node prev kv) fgsR else Ok (m6, fgsR)) as [[m7 fgs7]|] eqn:E8; cbn [bind]; [|discriminate].
+  intros H Hnr. apply ok_some in H. subst fo. cbn [fo_m6] in Hnr.
+  destruct (annotate_insert kv prev m6 fgsR E7 Hnr) as [fgs Ea]. rewrite Ea. cbn [bind].
+  pose proof (annotate_remove kv _ _ _ Ea) as Ea'. rewrite E7 in Ea'. apply ok_some in Ea'. subst fgsR.
+  destruct aa; [|eexists; reflexivity].
+  assert (forall g, fg_get kv fgs = Some g -> g = []) as Hget.
+  { intros g Hg. apply keys_nil_graph. destruct (node_keys g) as [|n r] eqn:En; [reflexivity|]. exfalso. apply (Hnr n).
+    apply (frag_exact _ _ _ Ea kv g); [|rewrite En; now left]. clear -Hg. induction fgs as [|[k h] r' IH]; cbn in Hg; [discriminate|].
+    destruct (Z.eqb_spec kv k) as [->|N]; [inversion Hg; now left|right; auto]. }
+  pose proof (fraglist_remove kv prev fgs Hget) as Hfl.
+  destruct (names_indep m6 (remove_node prev kv) (filter (notkv kv) fgs) prev fgs m7 fgs7 (eq_sym Hfl) E8) as [f2' E2]. rewrite E2. cbn [bind].
+  eexists. reflexivity.
+Qed.
+
+(** both directions: the two steps return together *)
+Theorem step_virtual_iff legacy aa fd prev car kv : wf_dict fd -> wf_attrs fd -> NoDup (node_keys prev) ->
+  get_node_attributes prev (S "atomname") = [] -> vnode fd kv prev ->
+  ((exists fo', resolve_step_full legacy aa fd prev car = Ok fo') <->
+   (exists fo, resolve_step_full legacy aa fd (remove_node prev kv) car = Ok fo)).
+Proof.
+  intros Hw Hwa Hn Hat V. split.
+  - intros [fo' H]. destruct (step_remove_virtual _ _ _ _ _ _ _ Hw Hwa Hn Hat V H) as [fo [E _]]. eauto.
+  - intros [fo H]. eapply step_insert_virtual; eassumption.
+Qed.
